@@ -38,6 +38,9 @@ func (r *readOnlyFile) Stat() (hackpadfs.FileInfo, error) {
 }
 
 func (r *readOnlyFile) Truncate(size int64) error {
+	if r.file.fileData == nil {
+		return hackpadfs.ErrClosed
+	}
 	// a read-only handle must never change the contents (os.File: EINVAL)
 	return &hackpadfs.PathError{Op: "truncate", Path: r.file.path, Err: hackpadfs.ErrInvalid}
 }
@@ -56,6 +59,9 @@ type writeOnlyFile struct {
 
 func (w *writeOnlyFile) Read(p []byte) (n int, err error) {
 	// Read is required by hackpadfs.File
+	if w.file.fileData == nil {
+		return 0, hackpadfs.ErrClosed
+	}
 	return 0, &hackpadfs.PathError{Op: "read", Path: w.file.path, Err: hackpadfs.ErrNotImplemented}
 }
 
